@@ -556,6 +556,15 @@ func semanticCatalogue() []badCase {
 		{"map-with-binary-key", m("struct S { 1: map<binary,i32> s }\n"), false},
 		{"set-of-list", m("struct S { 1: set<list<i32>> s }\n"), false},
 		{"circular-include", map[string]string{"main.frugal": "include \"other.frugal\"\nstruct S { 1: i32 a }\n", "other.frugal": "include \"main.frugal\"\nstruct T { 1: i32 a }\n"}, true},
+		{"const-ref-unknown-include", m("const i32 K = nope.VAL\n"), true},
+		{"const-ref-misspelled-include", map[string]string{"main.frugal": "include \"other.frugal\"\nconst i32 K = othr.LIMIT\n", "other.frugal": "const i32 LIMIT = 3\n"}, true},
+		{"const-ref-missing-member-of-include", map[string]string{"main.frugal": "include \"other.frugal\"\nconst i32 K = other.MISSING\n", "other.frugal": "const i32 LIMIT = 3\n"}, false},
+		{"const-ref-unknown-identifier", m("const i32 K = NOPE\n"), false},
+		{"const-ref-unknown-enum-member", m("enum E { A }\nconst E K = E.B\n"), false},
+		{"const-ref-three-part-unknown", m("const i32 K = a.b.c\n"), false},
+		{"field-default-ref-unknown-include", m("struct S { 1: i32 x = nope.VAL }\n"), false},
+		{"const-list-element-ref-unknown-include", m("const list<i32> K = [nope.VAL]\n"), false},
+		{"const-map-value-ref-unknown-include", m("const map<string,i32> K = {\"a\": nope.VAL}\n"), false},
 		{"empty-file", m(""), false},
 		{"only-comment", m("// nothing\n"), false},
 		{"very-deep-nesting", m("struct S { 1: " + strings.Repeat("list<", 200) + "i32" + strings.Repeat(">", 200) + " x }\n"), false},
@@ -605,6 +614,16 @@ func runC11Bad(res *result) {
 		"struct-service": "namespace go m\nenum E { A = 1, B }\nstruct P { 1: required i32 x = 5, 2: optional list<string> l }\nexception X { 1: string m }\nservice S extends T {\n  P get(1: i32 id) throws (1: X x)\n  oneway void fire()\n}\nservice T {\n void ping()\n}\n",
 		"scope":          "struct P { 1: i32 x }\nscope Ev prefix foo.{user} {\n  Made: P\n}\ntypedef map<string, P> M\nconst M K = {\"a\": {\"x\": 1}}\n",
 	}
+	// constants and defaults that refer to other constants / enum values, locally and through an include
+	bases["const-refs"] = "include \"other.frugal\"\nenum E { A, B }\nconst i32 K = other.LIMIT\nconst i32 K2 = K\nstruct S { 1: i32 x = K, 2: E e = E.A, 3: other.Kind k = other.Kind.Y }\n"
+	extras := map[string]map[string]string{"const-refs": {"other.frugal": "const i32 LIMIT = 3\nenum Kind { X, Y }\n"}}
+	withExtras := func(bn, main string) map[string]string {
+		fs := map[string]string{"main.frugal": main}
+		for k, v := range extras[bn] {
+			fs[k] = v
+		}
+		return fs
+	}
 	names := make([]string, 0, len(bases))
 	for k := range bases {
 		names = append(names, k)
@@ -618,18 +637,18 @@ func runC11Bad(res *result) {
 			bracket := strings.ContainsAny(tok, "{}()<>") && len(tok) == 1
 			del := txt[:loc[0]] + txt[loc[1]:]
 			dup := txt[:loc[1]] + " " + tok + txt[loc[1]:]
-			tryBad(fmt.Sprintf("mutant/%s/delete-token-%d-%s", bn, i, tok), map[string]string{"main.frugal": del}, bracket)
-			tryBad(fmt.Sprintf("mutant/%s/duplicate-token-%d-%s", bn, i, tok), map[string]string{"main.frugal": dup}, bracket)
+			tryBad(fmt.Sprintf("mutant/%s/delete-token-%d-%s", bn, i, tok), withExtras(bn, del), bracket)
+			tryBad(fmt.Sprintf("mutant/%s/duplicate-token-%d-%s", bn, i, tok), withExtras(bn, dup), bracket)
 			if i+1 < len(locs) {
 				nx := locs[i+1]
 				sw := txt[:loc[0]] + txt[nx[0]:nx[1]] + txt[loc[1]:nx[0]] + tok + txt[nx[1]:]
-				tryBad(fmt.Sprintf("mutant/%s/swap-token-%d", bn, i), map[string]string{"main.frugal": sw}, false)
+				tryBad(fmt.Sprintf("mutant/%s/swap-token-%d", bn, i), withExtras(bn, sw), false)
 			}
 			if *tier == "thorough" {
 				for j := i + 1; j < len(locs); j++ {
 					l2 := locs[j]
 					d2 := txt[:loc[0]] + txt[loc[1]:l2[0]] + txt[l2[1]:]
-					tryBad(fmt.Sprintf("mutant/%s/delete-tokens-%d-%d", bn, i, j), map[string]string{"main.frugal": d2}, false)
+					tryBad(fmt.Sprintf("mutant/%s/delete-tokens-%d-%d", bn, i, j), withExtras(bn, d2), false)
 				}
 			}
 		}
